@@ -245,7 +245,13 @@ def install(names=None):
         @_guard
         def post_split(self, capacities, result, OLD):
             d0, wf, runs0, non0, ev0, snd0 = OLD.pre
-            caps = list(capacities)
+            if hasattr(capacities, "verif_values"):
+                caps = list(capacities.verif_values)     # a one-shot iterator built by the driver: it says what it was going to yield
+            elif iter(capacities) is capacities:
+                vac("split", "all")                      # someone else's one-shot iterator: consumed by now, nothing to compare with
+                return True
+            else:
+                caps = [int(c) for c in capacities]
             if not wf or not all(type(c) is int and c > 0 for c in caps):
                 vac("split", "all")
                 return True
@@ -671,6 +677,10 @@ def install(names=None):
                     "ts": orc.sig_changes(timed, TS), "ks": orc.sig_changes(timed, KS)}
 
         def snap_merge(self, sequences):
+            if iter(sequences) is sequences:
+                # a one-shot iterator / generator: looking at it would consume it before the real call does; the driver compares
+                # such calls with the list form of the same call (which this contract judges)
+                return [None]
             return [_msnap(self)] + [_msnap(s) for s in sequences]
 
         def _expected_sigs(lists):
